@@ -57,6 +57,11 @@ if REAL:
         def put_raw(name, data):
             _RealPath(name).write_bytes(data)
 
+        @staticmethod
+        def put_head(name, data):
+            with open(name, "r+b") as f:
+                f.write(data)
+
     atexit.register(lambda: shutil.rmtree(B.root, ignore_errors=True))
 else:
     import vt.shims  # noqa: F401
@@ -96,6 +101,10 @@ else:
         @staticmethod
         def put_raw(name, data):
             fakeh5.FS[name] = bytearray(data)
+
+        @staticmethod
+        def put_head(name, data):
+            fakeh5.FS[name].ub[:len(data)] = data
 
     patch_pydantic_copy()
     if not P_.NATIVE:
